@@ -39,35 +39,35 @@ VERUS_NOTE = ("trusted: Verus/Z3, vstd specs of std, the assume_specification/ex
 KANI_NOTE = "trusted: Kani/CBMC; harness reference tables written from the RFCs/IANA registry (kani/harness.rs, contracts/schema.py)"
 
 PROPS = {
-    'C01': {'verus': True, 'kani': ['header_peek_short_buffers', 'header_parse_total'],
+    'C01': {'standin': ['malformed'], 'verus': True, 'kani': ['header_peek_short_buffers', 'header_parse_total'],
             'technique': 'Verus contracts on every parse-path function of the real crate (panic-freedom, termination, cursor discipline, allocation bound) + loop-free Kani harnesses for the header-peek functions',
             'text': 'proof for all inputs: every index, slice range, arithmetic operation, unwrap and loop of the parse path is a discharged Verus obligation on the real function bodies (in-situ annotation); header peeks are a complete loop-free CBMC proof over all buffers of length 0..=13',
             'note': VERUS_NOTE + '; ' + KANI_NOTE + '; the allocator and Vec growth policy are not modelled (allocation is bounded through with_capacity arguments and one push per consumed byte)'},
-    'C02': {'verus': True, 'kani': ['header_write_layout'],
+    'C02': {'standin': ['roundtrip', 'txt'], 'verus': True, 'kani': ['header_write_layout'],
             'technique': 'Verus: encoder/decoder pair contracts per wire element (ghost wf_enc / wf_dec from the RFCs) on the real write_to / parse bodies, Packet::write_to proved to emit header + sections; round-trip lemmas for names; Kani for the header word',
             'text': 'proof per element: every write_to emits exactly wf_enc, every parse accepts exactly what wf_dec describes; the name round-trip lemma (decode(pre+encode(n)+post) == n) is proved; the per-type and packet-level composition decode(encode(p)) == p is stated over these contracts but not yet machine-checked as one lemma',
             'note': VERUS_NOTE + '; ' + KANI_NOTE + '; Name::len / OPT::len / SVCB::len and the writers of TXT SVCB NSEC IPSECKEY NSAP are assumed (external_body) in this version'},
-    'C03': {'verus': True, 'kani': [],
+    'C03': {'standin': ['roundtrip'], 'verus': True, 'kani': [],
             'technique': 'Verus: Name::compress_append (real body) proved against the RFC 1035 decoder with a ghost invariant on the suffix table; every compressed writer (Question, ResourceRecord incl. the RDLENGTH seek back-patch, RData, wrappers, the eight typed overrides SOA MX MINFO RP AFSDB RT HINFO ISDN, Packet::write_compressed_to) proved to emit bytes that decode to the very value written and are never longer than the plain encoding; default writers via generated per-type round-trip lemmas',
             'text': 'proof for all packets within DNS size limits written at stream origin 0: Packet::write_compressed_to yields a message m with pkt_dec(m) == the packet (same relation that Packet::parse establishes) and |m| <= |plain encoding|; offsets >= 16384 are never recorded as pointer targets (obligation `pos < 0x4000`). One step is assumed, not proved: overwriting the two RDLENGTH octets preserves earlier decoding facts (named axiom_rdlength_patch_frame, footprint argument in DESIGN.md)',
             'note': VERUS_NOTE + '; ASSUMED: axiom_rdlength_patch_frame; HashMap key model for &[Label]; writer must start at stream position 0 (known finding D15 otherwise)'},
-    'C07': {'verus': True, 'kani': [], 'scope_findings': [(D15_KEY, D15_TEXT)],
+    'C07': {'standin': ['roundtrip'], 'verus': True, 'kani': [], 'scope_findings': [(D15_KEY, D15_TEXT)],
             'technique': 'Verus: post-condition of Name::compress_append (every recorded target < 0x4000, inside the message, decoding to the suffix; pointer emitted iff the suffix is in the table; a name already in the table is written as 2 bytes) + trait-level obligation that the no-compression types (SRV NAPTR KX RRSIG NSEC IPSECKEY SVCB HTTPS) are written in full',
             'text': 'proof: every pointer emitted is 0xC000|p with p < 0x4000 the recorded start of that label suffix (strictly before the current position) and expands to the intended name; types on the RFC no-compression list satisfy io_buf == old + wf_enc (their default write_compressed_to is verified once, generically); a repeated name costs 2 bytes',
             'note': VERUS_NOTE + '; stream origin must be the message origin (known finding D15)'},
-    'C04': {'verus': True, 'kani': ['header_write_layout'], 'scope_findings': [(D15_KEY, D15_TEXT)],
+    'C04': {'standin': ['roundtrip', 'txt'], 'verus': True, 'kani': ['header_write_layout'], 'scope_findings': [(D15_KEY, D15_TEXT)],
             'technique': 'Verus: len() == |wf_enc| per type, RDLENGTH = |rdata encoding|, header counts = section lengths (+1 for OPT), all against an abstract std::io::Write contract (emission log + positional buffer), so any writer kind gives the same bytes',
             'text': 'proof for all packets within DNS size limits and every writer obeying the Write contract: Packet::write_to emits hdr_enc(counts) + sections (+ one OPT record) and nothing else; ResourceRecord::write_to writes RDLENGTH = |RDATA|; errors of the writer propagate through `?` without panics. Packet::write_compressed_to is proved to emit a message that decodes with the header counts, RDLENGTH back-patched to the number of RDATA bytes that follow, and the OPT record exactly once',
             'note': VERUS_NOTE + '; build_bytes_vec* (Cursor<Vec> wrappers) are not verified; len() of types listed as external_body in the evidence is assumed; compressed writer: stream origin 0 only (known finding D15), axiom_rdlength_patch_frame assumed; TXT size cache set by unverified constructors (TryFrom<&str>) is assumed consistent'},
-    'C05': {'verus': True, 'kani': [],
+    'C05': {'standin': ['malformed'], 'verus': True, 'kani': [],
             'technique': 'Verus: Packet::parse / parse_section / ResourceRecord::parse / RData::parse / Question::parse proved against an RFC 1035 envelope spec (chain of entries, RDLENGTH-delimited RDATA, typed content decoded from the message truncated at the RDATA end)',
             'text': 'proof for all byte strings: Ok(p) implies the sections are back-to-back chains of entries starting at offset 12 with the header counts, each record spans name + 10 + RDLENGTH bytes, type/class/ttl/cache-flush are those of the entry, and the cursor after each record is its RDATA end',
             'note': VERUS_NOTE + '; header_buffer count readers are assumed in Verus with the statements proved by the Kani harnesses of C01/C08'},
-    'C09': {'verus': True, 'kani': ['opt_ttl_layout', 'opt_ttl_parse_side'],
+    'C09': {'standin': ['roundtrip', 'malformed'], 'verus': True, 'kani': ['opt_ttl_layout', 'opt_ttl_parse_side'],
             'technique': 'Verus: OPT::parse / write_to against a code-length-value list spec, encode_ttl / extract_rcode_from_ttl against the RFC 6891 TTL layout, ARCOUNT and single OPT record in Packet::write_to, OPT lifting in Packet::parse; Kani loop-free harnesses for the TTL word',
             'text': 'proof: TTL = ext-rcode<<24 | version<<16, CLASS slot = UDP size, options are exactly the code/length/value triples, the OPT record is written once and counted in ARCOUNT, parsing removes the first OPT record and recombines the 12-bit rcode (for header nibbles that map to named codes)',
             'note': VERUS_NOTE + '; ' + KANI_NOTE + '; Header::opt_rr (closure + array-to-Name conversion) is assumed with the contract checked by inspection; OPT::len assumed'},
-    'C06': {'verus': True, 'kani': [],
+    'C06': {'standin': ['malformed'], 'verus': True, 'kani': [],
             'technique': 'Verus: Name::parse proved equivalent to an RFC 1035 4.1.4 spec decoder (loop invariant + lexicographic measure)',
             'text': 'proof for all byte strings and start offsets: Ok(n) iff the spec decoder yields exactly n\'s labels, cursor = start + in-place length, Err iff the spec decoder fails',
             'note': VERUS_NOTE},
@@ -79,11 +79,11 @@ PROPS = {
             'technique': 'Verus: per-type ghost encoder/decoder generated from an RFC schema (contracts/schema.py); the real parse/write_to/len bodies are proved against them; Kani for the IANA type-code table',
             'text': 'proof for all inputs for the straight-line types: parse reads exactly the RFC layout (wf_dec), write_to emits exactly the RFC encoding (wf_enc), len equals its size; loop/union types (TXT OPT SVCB NSEC IPSECKEY NSAP) are currently covered for safety only',
             'note': VERUS_NOTE + '; ' + KANI_NOTE},
-    'C12': {'verus': True, 'kani': [],
+    'C12': {'standin': ['observers', 'malformed'], 'verus': True, 'kani': [],
             'technique': 'Verus contracts on Display for Label and Display for CharacterString with std::fmt::Formatter modelled by one ghost predicate ("the sink failed"); panic-freedom of the parse-produced observers that are inside Verus',
             'text': 'proof for all label / string contents: fmt returns Err only if the formatter\'s sink returned Err and never panics (from_utf8 failure falls back to a lossy rendering); this is what to_string() / format!() and the Debug impls built on them rely on. Display for Name, the Debug impls (format_args!), TXT::attributes / long_attributes and String::try_from are outside Verus: they are listed as unverified observers (they only propagate the results of the two verified functions or use Result-returning std conversions)',
             'note': VERUS_NOTE + '; Formatter::write_str, str::from_utf8, String::from_utf8_lossy are assume_specification items; into_owned / clone / Hash / Eq are derive- or iterator-based and not verified here'},
-    'C17': {'verus': False, 'level': 'other',
+    'C17': {'standin': ['name_text'], 'verus': False, 'level': 'other',
             'kani': ['label_grammar_le65'] + ['suffix_0_0', 'suffix_0_1', 'suffix_0_2', 'suffix_0_3', 'suffix_1_0', 'suffix_1_1', 'suffix_1_2', 'suffix_1_3', 'suffix_2_0', 'suffix_2_1', 'suffix_2_2', 'suffix_2_3', 'suffix_3_0', 'suffix_3_1', 'suffix_3_2', 'suffix_3_3'] + ['link_local_4', 'link_local_5', 'link_local_6', 'link_local_root'],
             'technique': 'Kani/CBMC bounded harnesses on the real functions (Label::new grammar for every byte string of length <= 65; is_subdomain_of / without for all shapes of <= 3 one-byte labels; is_link_local for last labels of length 4, 5, 6)',
             'text': 'bounded: each harness is exhaustive within its stated bound (all byte values), not a proof for all lengths. Decided: the label grammar clause for labels up to 65 bytes (longer ones take the same early return), the suffix relation and suffix removal for every pair of names with 0..=3 one-byte labels, link-local detection for one- and two-label names whose last label has 4, 5 or 6 bytes. NOT decided: Name::new as a whole (splitting on dots + 255-byte rule: collect::<Result<Vec<_>,_>>() did not finish under CBMC) and the display-then-reparse clause (format_args!)',
